@@ -118,6 +118,16 @@ def _run_cvc5(assertions, timeout_ms):
             pass
 
 
+def die_with_parent():
+    """Linux: deliver SIGKILL to this process when its parent exits (no orphaned solver processes)"""
+    try:
+        import ctypes
+        import signal
+        ctypes.CDLL('libc.so.6', use_errno=True).prctl(1, signal.SIGKILL)
+    except Exception:
+        pass
+
+
 def hard_call(fn, timeout_s):
     """run fn() in a forked child (shares the z3 terms copy-on-write); hard-kill after timeout_s.
     -> fn's (picklable) result, or None on timeout/crash.  z3's own timeout is cooperative and is
@@ -131,7 +141,9 @@ def hard_call(fn, timeout_s):
     if pid == 0:
         code = 0
         try:
+            die_with_parent()
             os.setsid()             # own process group: the parent kills the group (incl. a cvc5 grandchild)
+            signal.alarm(int(timeout_s) + 5)    # self-destruct if the parent is gone (SIGALRM default action)
             os.close(r)
             res = fn()
             data = pickle.dumps(res)
